@@ -243,9 +243,9 @@ func init() {
 
 	// concurrent variants of sequentially stated clauses: a few concurrent histories in the checks whose statement they can break
 	eConcCat := &core.Engine{Name: "conc-catalog", Run: RunConcCatalog}
-	for id, n := range map[string][2]int{"C13": {80, 1500}, "C19": {40, 800}} {
+	for id, n := range map[string][2]int{"C13": {80, 1500}, "C19": {40, 800}, "C09": {60, 1200}} {
 		core.Registry[id].Uses = append(core.Registry[id].Uses, core.Use{E: eConcCat, Quick: n[0], Thorough: n[1]})
-		core.Registry[id].Rule += " Plus concurrent creations/imports of one collection name by 2-6 goroutines (exactly one may succeed, nothing acknowledged may be lost)."
+		core.Registry[id].Rule += " Plus concurrent creations/imports of one collection name by 2-6 goroutines (exactly one may succeed, nothing acknowledged may be lost; readers never see an imported collection without its documents)."
 	}
 	eOversized := &core.Engine{Name: "oversized", Run: RunOversized}
 	for _, id := range []string{"C03", "C06", "C09", "C15"} {
@@ -254,9 +254,9 @@ func init() {
 	}
 	core.Registry["C03"].Uses = append(core.Registry["C03"].Uses, core.Use{E: eConcDisjoint, Quick: 80, Thorough: 2000})
 	core.Registry["C03"].Rule += " Plus concurrent bulk operations by two goroutines on two different collections of one handle (each collection must end as if its goroutine ran alone)."
-	for id, n := range map[string][2]int{"C06": {120, 2000}, "C12": {120, 2000}, "C14": {100, 2000}, "C04": {80, 1500}} {
+	for id, n := range map[string][2]int{"C06": {120, 2000}, "C12": {120, 2000}, "C14": {100, 2000}, "C04": {80, 1500}, "C03": {150, 3000}} {
 		core.Registry[id].Uses = append(core.Registry[id].Uses, core.Use{E: eConc, Quick: n[0], Thorough: n[1]})
-		core.Registry[id].Rule += " Plus concurrent histories (contended caller-supplied ids, concurrent deletes of one id) checked for linearizability and audited at quiescence."
+		core.Registry[id].Rule += " Plus concurrent histories (contended caller-supplied ids, concurrent deletes of one id, sorted read-modify-write bulk updates whose selection depends on the value they change) checked for linearizability and audited at quiescence."
 	}
 	core.Registry["C07"].Uses = append(core.Registry["C07"].Uses, core.Use{E: &core.Engine{Name: "conc-oversized", Run: RunConcOversized}, Quick: 6, Thorough: 60})
 	core.Registry["C07"].Rule += " Plus an Insert beyond badger's default transaction size next to two counting readers (none or all of the batch is ever visible; a refused batch leaves nothing)."
@@ -264,6 +264,11 @@ func init() {
 	for id, n := range map[string][2]int{"C08": {60, 1500}, "C01": {40, 1000}, "C02": {40, 1000}} {
 		core.Registry[id].Uses = append(core.Registry[id].Uses, core.Use{E: eReadFaults, Quick: n[0], Thorough: n[1]})
 		core.Registry[id].Rule += " Plus sorted / windowed / filtered queries with every store call failing in turn (the query may fail; a reported success must still be the exact answer)."
+	}
+	eDDLFaults := &core.Engine{Name: "index-ddl-faults", Run: RunIndexDDLFaults}
+	for id, n := range map[string][2]int{"C14": {150, 3000}, "C06": {80, 1500}} {
+		core.Registry[id].Uses = append(core.Registry[id].Uses, core.Use{E: eDDLFaults, Quick: n[0], Thorough: n[1]})
+		core.Registry[id].Rule += " Plus CreateIndex / DropIndex with one store call failing (positions spread over the cases): the index is then wholly there or wholly gone - catalog, raw entries and queries through the re-created index agree."
 	}
 	eConcDDL := &core.Engine{Name: "conc-ddl", Run: RunConcDDL}
 	for id, n := range map[string][2]int{"C02": {150, 4000}, "C07": {150, 4000}, "C14": {100, 2500}} {
